@@ -25,6 +25,12 @@ def gen(tier, rng, shard, nshards):
                "real_start": bool(rng.random() < 0.3), "wide_start": bool(rng.random() < 0.25), "opscale": float(S.pick(rng, [1.0, 1.0, 1.0, 1e-9, 1e9])),
                "vscale": float(S.pick(rng, [1.0, 1.0, 1.0, 1e-12, 1e-30, 1e-9, 1e15])),
                "near_inv": bool(rng.random() < 0.3), "narrow_op": bool(rng.random() < 0.25)}
+        if rng.random() < 0.05:
+            # a matrix-free operator whose product hands back a *view* of its operand (the exchange matrix): the routine must not
+            # update its working vector in place (Krylov dimension 2: the run also ends in a numerical breakdown)
+            yield {"n": int(S.pick(rng, [2, 3, 4, 6, 8])), "dt": S.pick(rng, ["f8", "c16"]), "normal": True, "seed": S.seed(rng), "cols": 0, "rhs": "generic", "x0": "none",
+                   "start": S.pick(rng, ["given", "given", "batched"]), "m": S.pick(rng, ["2", "n", "n+3", "default"]), "tol": float(S.pick(rng, [1e-8, 1e-6])),
+                   "fn": S.pick(rng, ["arnoldi", "arnoldi_eigs", "Arnoldi()"]), "opscale": 1.0, "vscale": 1.0, "opview": True}
 
 
 def min_rel_residual(M, v, m):
@@ -174,6 +180,8 @@ def run_case(ctx, case):
     if np.linalg.cond(M) > 1e2:
         ctx.note("skipped_out_of_regime_cond")
         return
+    if case.get("opview"):
+        degree = min(2, n)  # (the exchange matrix has the eigenvalues +-1 only: every Krylov space has dimension <= 2)
     perturbed = False
     if case.get("near_inv") and case["rhs"] in ("eigvec", "few-eigvecs") and degree is not None and n > 2:
         # a start vector that is only *nearly* inside an invariant subspace: after `degree` steps the new direction is small
@@ -202,6 +210,8 @@ def run_case(ctx, case):
     for key in ("rhs", "start", "m", "fn"):
         ctx.count(key, case[key])
     A = cola.ops.Dense(M if M32 is None else M32)
+    if case.get("opview"):
+        A = cola.ops.LinearOperator(M.dtype, M.shape, matmat=lambda X: X[::-1])
     preds = {"start": case["start"], "rhs": case["rhs"], "complex": cplx, "fn": case["fn"],
              "m_class": "default" if m_req is None else ("m<n" if m_req < n else ("m=n" if m_req == n else "m>n"))}
     kw = {"tol": case["tol"]}
